@@ -77,6 +77,8 @@ run_directed = directed.run
 
 
 def cases(tier, rng):
+    for c in directed.async_message_equals_sync_cases():
+        yield "directed-async-message-equals-sync", c
     thorough = tier == "thorough"
     for c in directed.rewritten_file_cases():
         yield "directed-rewritten-file", c
